@@ -250,6 +250,40 @@ def run_framers(case):
                     sim.violation_once('usb', f'usb-splitter:different-packets:type={typ:#04x}', f'{len(out)} packets, expected {len(sub)}; cuts {cuts[:4]}')
                     break
 
+        # ---- the sink is attached (or attached again) only after some chunks have been fed: what completes from then on is delivered
+        def check_late(chunks, j, again):
+            nonlocal evaluations
+            evaluations += 1
+            first, sink = Sink(), Sink()
+            parser = common.PacketParser(first if again else None)
+            fed = 0
+            at = None
+            for i, ch in enumerate(chunks):
+                if i == j:
+                    parser.set_packet_sink(sink)
+                    at = fed
+                try:
+                    parser.feed_data(ch)
+                except Exception as e:
+                    sim.violation_once('late-sink', f'push-parser:raised-on-well-formed-stream:late-sink:{type(e).__name__}', repr(e))
+                    return False
+                fed += len(ch)
+            if at is None:
+                return True
+            want = [p for p, e in zip(expected, ends) if e > at]
+            if sink.got != want:
+                sim.violation_once('late-sink', f'push-parser:packets-lost-after-sink-{"replaced" if again else "attached-late"}',
+                                   f'sink set after {at}/{n} bytes: it got {len(sink.got)} packets, {len(want)} were completed after that point')
+                return False
+            return True
+        if not sim.violations and n >= 2:
+            for _ in range(4):
+                cuts = sorted(r.sample(range(1, n), min(n - 1, r.randint(1, 4))))
+                chunks = [stream[a:b] for a, b in zip([0] + cuts, cuts + [n])]
+                if not check_late(chunks, r.randrange(len(chunks)), r.random() < 0.5):
+                    break
+            sim.probe('sink_attached_mid_stream')
+
         # ---- unrecognised type byte at a packet boundary
         if case['bad'] and len(expected) >= 2:
             k = 1 + case['bad_at'] % (len(expected) - 1)  # before packet k
